@@ -305,6 +305,98 @@ class Ops:
         _fail(s, "statement")
 
 
+class Pure:
+    """read-only methods that return a bool or a small int:  [alias assignments]  (if c: return v |
+    for k in it: if c(k): return v)*  return v      ->  nested if / existsb"""
+
+    def __init__(self, params):
+        self.alias = {}
+        self.params = params            # name -> "operand" | "item"
+        self.loopvar = None
+
+    def is_map(self, e):
+        return _is_self_attr(e, "item_index_map") or (isinstance(e, ast.Name) and self.alias.get(e.id) == "item_index_map")
+
+    def nat(self, e):
+        if isinstance(e, ast.Constant) and type(e.value) is int and e.value >= 0:
+            return "%d" % e.value
+        if isinstance(e, ast.Call) and isinstance(e.func, ast.Name) and e.func.id == "len" and len(e.args) == 1 and not e.keywords:
+            a = e.args[0]
+            if isinstance(a, ast.Name) and a.id == "self":
+                return "(m_len self)"
+            if self.is_map(a):
+                return "(length (imap self))"
+            if isinstance(a, ast.Name) and self.params.get(a.id) == "operand":
+                return "(length (o_elems %s))" % a.id
+        _fail(e, "natural-number expression")
+
+    def item(self, e):
+        if isinstance(e, ast.Name) and (e.id == self.loopvar or self.params.get(e.id) == "item"):
+            return e.id
+        _fail(e, "item expression")
+
+    def cond(self, e):
+        if isinstance(e, ast.Compare) and len(e.ops) == 1:
+            op, l, r = e.ops[0], e.left, e.comparators[0]
+            if isinstance(op, (ast.In, ast.NotIn)):
+                if self.is_map(r):
+                    t = "(d_mem (imap self) %s)" % self.item(l)
+                elif isinstance(r, ast.Name) and self.params.get(r.id) == "operand":
+                    t = "(opd_mem %s %s)" % (self.item(l), r.id)
+                else:
+                    _fail(e, "membership test")
+                return t if isinstance(op, ast.In) else "(negb %s)" % t
+            if isinstance(op, ast.Lt):
+                return "(%s <? %s)" % (self.nat(l), self.nat(r))
+            if isinstance(op, ast.Gt):
+                return "(%s <? %s)" % (self.nat(r), self.nat(l))
+        _fail(e, "condition")
+
+    def value(self, e):
+        if isinstance(e, ast.Constant) and isinstance(e.value, bool):
+            return "true" if e.value else "false"
+        if isinstance(e, ast.Constant) and type(e.value) is int:
+            return self.nat(e)
+        if isinstance(e, ast.Compare):
+            return self.cond(e)
+        return self.nat(e)
+
+    def iterable(self, e):
+        if self.is_map(e):
+            return "(d_keys (imap self))"
+        if isinstance(e, ast.Name) and self.params.get(e.id) == "operand":
+            return "(o_elems %s)" % e.id
+        _fail(e, "iterable")
+
+    def block(self, stmts, ind):
+        if not stmts:
+            raise Unsupported("function falls off its end")
+        s, rest = stmts[0], stmts[1:]
+        if isinstance(s, ast.Expr) and isinstance(s.value, ast.Constant) and isinstance(s.value.value, str):
+            return self.block(rest, ind)
+        if isinstance(s, ast.Assign) and len(s.targets) == 1 and isinstance(s.targets[0], ast.Name) \
+                and _is_self_attr(s.value, "item_index_map"):
+            self.alias[s.targets[0].id] = "item_index_map"
+            return self.block(rest, ind)
+        if isinstance(s, ast.Return) and s.value is not None and not rest:
+            return ind + self.value(s.value) + "\n"
+        if isinstance(s, ast.If) and not s.orelse and len(s.body) == 1 and isinstance(s.body[0], ast.Return) \
+                and s.body[0].value is not None:
+            return ind + "if %s then %s else (\n%s%s)\n" % (self.cond(s.test), self.value(s.body[0].value),
+                                                            self.block(rest, ind + "  "), ind)
+        if isinstance(s, ast.For) and isinstance(s.target, ast.Name) and not s.orelse and len(s.body) == 1 \
+                and isinstance(s.body[0], ast.If) and not s.body[0].orelse and len(s.body[0].body) == 1 \
+                and isinstance(s.body[0].body[0], ast.Return) and s.body[0].body[0].value is not None:
+            it = self.iterable(s.iter)
+            self.loopvar = s.target.id
+            c = self.cond(s.body[0].test)
+            v = self.value(s.body[0].body[0].value)
+            self.loopvar = None
+            return ind + "if existsb (fun %s => %s) %s then %s else (\n%s%s)\n" % (
+                s.target.id, c, it, v, self.block(rest, ind + "  "), ind)
+        _fail(s, "statement")
+
+
 def _method(tree, name):
     cls = [n for n in tree.body if isinstance(n, ast.ClassDef) and n.name == "IndexedSet"]
     if len(cls) != 1:
@@ -356,6 +448,18 @@ def generate(repo):
     # sorted(self, **kwargs) is an input of the generated function: any function from the items to a list of items
     text += simple_method("sort", ["self"], " (sorted_fn : list K -> list K)")
     text += simple_method("index", ["self", "val"], " (val : K)", key_param="val")
+    for name, params, sig, kinds, ty in (
+            ("isdisjoint", ["self", "other"], " (other : operand)", {"other": "operand"}, "bool"),
+            ("issubset", ["self", "other"], " (other : operand)", {"other": "operand"}, "bool"),
+            ("issuperset", ["self", "other"], " (other : operand)", {"other": "operand"}, "bool"),
+            ("count", ["self", "val"], " (val : K)", {"val": "item"}, "nat"),
+            ("__contains__", ["self", "item"], " (item : K)", {"item": "item"}, "bool"),
+            ("__len__", ["self"], "", {}, "nat")):
+        fn = _method(tree, name)
+        if [a.arg for a in fn.args.args] != params or fn.args.defaults:
+            raise Unsupported("unexpected signature of %s" % name)
+        text += "Definition src_%s (self : iset)%s : %s :=\n" % (name.strip("_"), sig, ty) + \
+            Pure(kinds).block(fn.body, "  ").rstrip("\n") + ".\n\n"
     # __getitem__: the dispatch on the argument's type must be literally the known prelude; the integer path follows
     gi = _method(tree, "__getitem__")
     if [a.arg for a in gi.args.args] != ["self", "index"] or gi.args.defaults:
